@@ -85,8 +85,12 @@ pub fn judge_case(c: &Case) -> Obs {
     let dbg = run_lace(&p, &script, &input, fuel);
     let Some(d) = outcome_of(&mut obs, "C09", &dbg, &shown) else { return obs };
     if d.stop == Stop::OutOfFuel {
-        obs.excluded = Some("debugger session exhausted its fuel (a C16 matter)");
-        obs.label("debug-session-out-of-fuel");
+        // the plain run stops after rr.steps instructions; a debugged run that does not come back
+        // within 8x that work (plus commands) produces neither the output nor the exit status
+        obs.set_fail(
+            "C09:debugged-run-does-not-terminate",
+            format!("the plain run stops after {} instructions; under the debugger the session spent {} run-loop + {} debugger-loop iterations without ending\n{shown}\n--- debugger output ---\n{}", rr.steps, d.ticks, d.inner_ticks, clip(&String::from_utf8_lossy(&d.stderr))),
+        );
         return obs;
     }
     // how much happened while attached
@@ -204,7 +208,7 @@ impl Prop for C09 {
     fn assumptions(&self) -> Vec<String> {
         vec![
             "scripts ended by end of input get no program input (the debugger reads the shared stdin for commands by design)".into(),
-            "minimal mode on both sides; programs printing ESC, reading non-ASCII input or reaching unspecified VM behaviour are excluded; a session that exhausts its fuel is C16's finding".into(),
+            "minimal mode on both sides; programs printing ESC, reading non-ASCII input or reaching unspecified VM behaviour are excluded; a session that exhausts 8x(instructions + commands) + 64 loop iterations counts as non-terminating (deterministic fuel, hooks H3/H6)".into(),
         ]
     }
     fn run_worker(&self, ctx: &Ctx, rep: &mut Report) {
